@@ -466,6 +466,17 @@ Definition step (s : st) (t : nat) : option st :=
     else None
   end.
 
+(* a spin waiter whose slot is not ready only loops usleep/load without effect: explorers may skip it *)
+Definition spin_idle (s : st) (t : nat) : bool :=
+  match nth_error (threads s) t with
+  | Some th =>
+    match tpc th, nth_error (prog th) (opi th) with
+    | WSleep j, Some o => let '(sl, e) := wait_target s o (lc th) j in negb (spin_ready (ver (get_slot s sl)) e)
+    | _, _ => false
+    end
+  | None => false
+  end.
+
 (* ---- observables ---- *)
 Definition thread_done (th : thread) : bool :=
   match nth_error (prog th) (opi th) with None => true | Some _ => false end.
